@@ -36,6 +36,42 @@ const (
 
 var errInjected = errors.New("verif: injected tier failure")
 
+func allStacks() string {
+	buf := make([]byte, 1<<18)
+	for {
+		n := runtime.Stack(buf, true)
+		if n < len(buf) {
+			return string(buf[:n])
+		}
+		buf = make([]byte, 2*len(buf))
+	}
+}
+
+// blockedOnHybridLock: goroutine gid waits in sync.Mutex.Lock and the first frame outside sync/runtime belongs to package hybrid
+func blockedOnHybridLock(dump string, gid uint64) bool {
+	hdr := fmt.Sprintf("goroutine %d [", gid)
+	i := strings.Index(dump, hdr)
+	if i < 0 {
+		return false
+	}
+	blk := dump[i:]
+	if j := strings.Index(blk, "\n\n"); j >= 0 {
+		blk = blk[:j]
+	}
+	lines := strings.Split(blk, "\n")
+	state := lines[0][len(hdr):]
+	if !strings.HasPrefix(state, "sync.Mutex.Lock") && !strings.HasPrefix(state, "semacquire") {
+		return false
+	}
+	for _, ln := range lines[1:] {
+		if strings.HasPrefix(ln, "\t") || strings.HasPrefix(ln, "sync.") || strings.HasPrefix(ln, "internal/sync.") || strings.HasPrefix(ln, "runtime.") || strings.HasPrefix(ln, "internal/runtime") {
+			continue
+		}
+		return strings.HasPrefix(ln, "tunnox-core/internal/core/storage/hybrid.")
+	}
+	return false
+}
+
 func goid() uint64 {
 	var b [64]byte
 	n := runtime.Stack(b[:], false)
@@ -87,6 +123,7 @@ type sched struct {
 	keys   []string
 	wbRead []int // step of the persistent read that fed the j-th write-back
 
+	noWb    bool // repaired code: no write-back goroutine is spawned
 	seq     bool // nodes mode: ungated sequential history; only write-back goroutines are tracked
 	main    uint64
 	wg      sync.WaitGroup
@@ -280,7 +317,7 @@ func (p *persDouble) Get(key string) (any, error) {
 	}
 	if p.s != nil {
 		p.s.mu.Lock()
-		if p.s.seq {
+		if p.s.seq && !p.s.noWb {
 			p.s.wg.Add(1)
 		}
 		p.s.expWb++ // hybrid.Get / getSharedPersistent spawn one write-back per successful persistent read
@@ -395,6 +432,7 @@ type caseIn struct {
 	MaxWb   int      `json:"max_wb"`
 	Reader  bool     `json:"reader"` // the last caller only runs once everything else (write-backs included) has quiesced
 	Raw     bool     `json:"raw"`    // cache tiers hand lists through by reference (the real memory.Storage behaviour)
+	Locks   string   `json:"locks"`  // "" pinned code; "wb" key lock + synchronous cache fill; "wb+list" list operations hold it too
 	Nodes   int      `json:"nodes"`  // nodes mode: number of hybrid instances with private local caches
 	Steps   []stepIn `json:"steps"`  // nodes mode: sequential cross-node history (node -1 = a fresh cold-cache node)
 	N       int      `json:"n"`
@@ -417,6 +455,7 @@ type caseOut struct {
 	CacheSh   []bool     `json:"cache_shared"`
 	Viol      []viol     `json:"viol"`
 	WbRead    []int      `json:"wb_read"`
+	LockNote  string     `json:"lock_note,omitempty"`
 	WbMissing bool       `json:"wb_missing"`
 	Overflow  bool       `json:"overflow"`
 	Extra     any        `json:"extra,omitempty"`
@@ -496,6 +535,12 @@ func (r *rig) snapKey(c caseIn, k int) string {
 			o[2] = encVal(v)
 		}
 		r.pers.mu.Unlock()
+	}
+	// a cache entry that merely mirrors the persistent tier carries no information of its own (a cache fill is not a change)
+	for t := 0; t < 2; t++ {
+		if o[t] != nil && o[2] != nil && canon(o[t]) == canon(o[2]) {
+			o[t] = nil
+		}
 	}
 	return canon(o)
 }
@@ -652,12 +697,13 @@ func runSched(c caseIn) *caseOut {
 	}
 	logs := make([][]*opRec, n)
 	done := make([]chan struct{}, n)
+	doneCh := make(chan int, n+1)
 	for i, t := range c.Threads {
 		s.faults[i] = append([]bool(nil), t.Faults...)
 		done[i] = make(chan struct{})
 		ready := make(chan struct{})
 		go func(i int, t thrIn) {
-			defer close(done[i])
+			defer func() { close(done[i]); doneCh <- i }()
 			s.mu.Lock()
 			s.goids[goid()] = i
 			s.mu.Unlock()
@@ -683,27 +729,92 @@ func runSched(c caseIn) *caseOut {
 	}
 	parked := make([]bool, tot)
 	finished := make([]bool, tot)
+	blocked := make([]bool, n)   // waiting for the key lock of the repaired code (sync.Mutex.Lock inside hybrid)
+	arrived := make([]bool, tot) // parked since the last settle round
 	wbArrived := 0
 	note := func(j int) {
 		parked[j] = true
+		arrived[j] = true
+		if j < n {
+			blocked[j] = false
+		}
 		if j >= n {
 			wbArrived++
 		}
 	}
-	settle := func(i int) {
-		for !parked[i] && !finished[i] {
+	gids := make([]uint64, n)
+	s.mu.Lock()
+	for g, i := range s.goids {
+		if i < n {
+			gids[i] = g
+		}
+	}
+	s.mu.Unlock()
+	// settleAll: wait until every caller is parked at a tier call, finished, or blocked on hybrid's key lock.  "Blocked" is
+	// read off the goroutine's state and stack ([sync.Mutex.Lock] called directly from package hybrid), in a dump taken
+	// after every other caller has settled — nobody can release a lock any more at that point.
+	settleAll := func() {
+		deadline := time.Now().Add(20 * time.Second)
+		for {
+			var pending []int
+			for i := 0; i < n; i++ {
+				if !parked[i] && !finished[i] {
+					pending = append(pending, i)
+				}
+			}
+			if len(pending) == 0 {
+				return
+			}
+			wait := 20 * time.Second
+			if c.Locks != "" {
+				wait = 50 * time.Microsecond
+			}
 			select {
 			case j := <-s.arrive:
 				note(j)
-			case <-done[i]:
+				continue
+			case i := <-doneCh:
 				finished[i] = true
-			case <-time.After(20 * time.Second):
-				out.Viol = append(out.Viol, viol{Kind: "harness-timeout", Msg: fmt.Sprintf("caller %d neither reached a tier call nor finished within 20s", i), K: -1})
-				finished[i] = true
+				continue
+			case <-time.After(wait):
+			}
+			if c.Locks != "" {
+				dump := allStacks()
+				all := true
+				for _, i := range pending {
+					if !blockedOnHybridLock(dump, gids[i]) {
+						all = false
+					}
+				}
+				if all {
+					select {
+					case j := <-s.arrive:
+						note(j)
+						continue
+					case i := <-doneCh:
+						finished[i] = true
+						continue
+					default:
+					}
+					for _, i := range pending {
+						blocked[i] = true
+					}
+					return
+				}
+			}
+			if time.Now().After(deadline) {
+				out.Viol = append(out.Viol, viol{Kind: "harness-timeout", Msg: fmt.Sprintf("callers %v neither reached a tier call, finished nor blocked on the key lock within 20s", pending), K: -1})
+				for _, i := range pending {
+					finished[i] = true
+				}
+				return
 			}
 		}
 	}
 	waitWb := func() {
+		if c.Locks != "" { // repaired code: the cache fill is synchronous, no write-back goroutine exists
+			return
+		}
 		for {
 			s.mu.Lock()
 			exp := s.expWb
@@ -724,9 +835,82 @@ func runSched(c caseIn) *caseOut {
 			}
 		}
 	}
-	for i := 0; i < n; i++ {
-		settle(i)
+	// lock acquisitions are not tier calls: the harness observes them (the key's lock is held and a caller that can hold it
+	// has just parked) and records them as an extra entry of that caller in the executed schedule; the model's step of a
+	// caller that wants the lock is "acquire it if free".
+	type holderRec struct {
+		thread int
+		rec    *opRec
 	}
+	holder := make([]holderRec, len(c.Keys))
+	for k := range holder {
+		holder[k].thread = -1
+	}
+	canHold := func(i int) bool {
+		s.mu.Lock()
+		rec := s.cur[i]
+		s.mu.Unlock()
+		if rec == nil {
+			return false
+		}
+		switch rec.Op {
+		case "set", "del", "setnx", "incr", "incrby", "setexp":
+			return true
+		case "append", "remove":
+			return c.Locks == "wb+list" || rec.First >= 0
+		case "get":
+			return rec.First >= 0
+		}
+		return false
+	}
+	emitAcquisitions := func(stepped int, wasBlocked []bool) {
+		if c.Locks == "" {
+			return
+		}
+		for k := range c.Keys {
+			held, ok := hybrid.VerifKeyLockHeld(r.h, c.Keys[k])
+			if !ok || !held {
+				holder[k] = holderRec{thread: -1}
+				continue
+			}
+			if h := holder[k]; h.thread >= 0 {
+				s.mu.Lock()
+				same := s.cur[h.thread] == h.rec
+				s.mu.Unlock()
+				if same && !finished[h.thread] {
+					continue
+				}
+			}
+			cand := -1
+			for i := 0; i < n; i++ {
+				if !arrived[i] || !parked[i] || !canHold(i) {
+					continue
+				}
+				s.mu.Lock()
+				onKey := s.cur[i] != nil && s.cur[i].K == k
+				s.mu.Unlock()
+				if !onKey {
+					continue
+				}
+				if cand < 0 || (wasBlocked[i] && !wasBlocked[cand]) || (i == stepped && !wasBlocked[cand] && cand != stepped && false) {
+					cand = i
+				}
+			}
+			if cand >= 0 {
+				s.mu.Lock()
+				holder[k] = holderRec{thread: cand, rec: s.cur[cand]}
+				s.mu.Unlock()
+				out.Sched = append(out.Sched, cand)
+			} else {
+				out.LockNote = fmt.Sprintf("the lock of key %q was held although no parked caller of a locking operation could be holding it", c.Keys[k])
+			}
+		}
+		for i := range arrived {
+			arrived[i] = false
+		}
+	}
+	settleAll()
+	emitAcquisitions(-1, make([]bool, n))
 	stepOne := func(i int) {
 		out.Sched = append(out.Sched, i)
 		if i < 0 || i >= tot || finished[i] || !parked[i] {
@@ -735,11 +919,13 @@ func runSched(c caseIn) *caseOut {
 		s.mu.Lock()
 		s.step = len(out.Sched) - 1
 		s.mu.Unlock()
+		wasBlocked := append([]bool(nil), blocked...)
 		parked[i] = false
 		s.resume[i] <- struct{}{}
 		if i < n {
-			settle(i)
+			settleAll()
 			waitWb()
+			emitAcquisitions(i, wasBlocked)
 		} else {
 			<-s.wbLeft
 			finished[i] = true
@@ -752,7 +938,7 @@ func runSched(c caseIn) *caseOut {
 		for progress := true; progress; {
 			progress = false
 			for i := 0; i < lim; i++ {
-				for !finished[i] {
+				for parked[i] && !finished[i] {
 					stepOne(i)
 					progress = true
 				}
@@ -769,6 +955,15 @@ func runSched(c caseIn) *caseOut {
 		drain(n - 1)
 	}
 	drain(n)
+	for i := 0; i < n; i++ {
+		if !finished[i] {
+			select {
+			case <-done[i]:
+			case <-time.After(5 * time.Second):
+				out.Viol = append(out.Viol, viol{Kind: "harness-deadlock", K: -1, Msg: fmt.Sprintf("caller %d never finished (blocked=%v parked=%v)", i, blocked[i], parked[i])})
+			}
+		}
+	}
 	if out.Sched == nil {
 		out.Sched = []int{}
 	}
@@ -849,11 +1044,17 @@ func aliasPreds(c caseIn, out *caseOut, all []*opRec, kind func(int) string) []v
 	for who, lg := range out.Logs {
 		for _, o := range lg {
 			if (o.Op == "append" || o.Op == "remove") && o.First >= 0 && int(toInt(o.Res[0])) == 1 && o.before != "" && o.before != o.after {
-				foreign := false
+				foreign, nfault := false, 0
 				for _, a := range out.Acc {
 					if a.KI == o.K && a.Who != who && a.Step >= o.First && a.Step <= o.Last+1 {
 						foreign = true
 					}
+					if a.Who == who && a.Fault && a.Step >= o.First && a.Step <= o.Last {
+						nfault++
+					}
+				}
+				if nfault > 1 { // two tier calls of one operation failed: the error reports an unknown outcome
+					foreign = true
 				}
 				_ = n
 				if !foreign {
@@ -1250,6 +1451,8 @@ func runCase(raw json.RawMessage) interface{} {
 		return runStress(c)
 	case "nodes":
 		return runNodes(c)
+	case "probe":
+		return runProbe()
 	}
 	return runSched(c)
 }
@@ -1321,4 +1524,63 @@ func main() {
 		return
 	}
 	forEachCase(runCase)
+}
+
+// ---- behavioural probes of the tree variant ---------------------------------------------------------
+type probeCache struct {
+	*cacheDouble
+	onCall  func(m, key string)
+	failSet bool
+	failGet bool
+	deleted bool
+}
+
+func (p *probeCache) Set(key string, v any, ttl time.Duration) error {
+	p.onCall("Set", key)
+	if p.failSet {
+		return errInjected
+	}
+	return p.cacheDouble.Set(key, v, ttl)
+}
+func (p *probeCache) Get(key string) (any, error) {
+	p.onCall("Get", key)
+	if p.failGet {
+		return nil, errInjected
+	}
+	return p.cacheDouble.Get(key)
+}
+func (p *probeCache) Delete(key string) error {
+	p.deleted = true
+	return p.cacheDouble.Delete(key)
+}
+
+func runProbe() map[string]bool {
+	ctx, cancel := context.WithCancel(context.Background())
+	defer cancel()
+	out := map[string]bool{}
+	var h *hybrid.Storage
+	seen := map[string]bool{}
+	pc := &probeCache{cacheDouble: &cacheDouble{under: memory.New(ctx), tier: tLocal}}
+	pc.onCall = func(m, key string) {
+		if held, ok := hybrid.VerifKeyLockHeld(h, key); ok && held {
+			seen[m] = true
+		}
+	}
+	cfg := hybrid.DefaultConfig()
+	cfg.EnablePersistent = true
+	h = hybrid.NewWithSharedCache(ctx, pc, nil, &persDouble{m: map[string]any{}}, cfg)
+	_ = h.Set("tunnox:user:probe", "v1", 0)
+	out["lock_in_set"] = seen["Set"]
+	seen = map[string]bool{}
+	_ = h.AppendToList("tunnox:temp:probe", "e1")
+	out["lock_in_append"] = seen["Get"]
+	pc.failSet = true
+	_ = h.Set("tunnox:user:probe", "v2", 0)
+	out["invalidates"] = pc.deleted
+	pc.failSet, pc.failGet = false, false
+	_ = h.Set("tunnox:temp:probe2", "v1", 0)
+	pc.failGet = true
+	_, err := h.Get("tunnox:temp:probe2")
+	out["read_error_is_error"] = err != nil && !errors.Is(err, types.ErrKeyNotFound)
+	return out
 }
